@@ -474,13 +474,19 @@ func c14Families(p *chk.Prog, r *chk.Report) {
 		flg := g.Find(f.IsAssignPat("N."+c.flag, "true"))
 		ok := len(ins) == 1 && len(flg) == 1 && g.Dominated(ins[0], caseG) && g.Dominated(flg[0], caseG)
 		if ok {
-			for _, e := range g.EdgesImplying(caseG) {
-				if _, isCase := e.B.Succs[e.K].Stmt.(*ast.CaseClause); !isCase {
-					continue
+			// every advertisement of that family that is processed to the end of its iteration has done both
+			advLoop, _ := f.LoopOf(ins[0].Node).(*ast.RangeStmt)
+			if advLoop == nil {
+				ok = false
+			} else {
+				both := chk.GAnd(chk.GEvent(func(n ast.Node) bool { return n == ins[0].Top }), chk.GEvent(func(n ast.Node) bool { return n == flg[0].Top }))
+				ends := g.LoopIteration(advLoop, chk.GOr(chk.GNot(caseG), both))
+				for _, e := range ends {
+					if !e.OK {
+						ok = false
+					}
 				}
-				if g.BranchAlways(e, func(n ast.Node) bool { return n == ins[0].Top }).Found || g.BranchAlways(e, func(n ast.Node) bool { return n == flg[0].Top }).Found {
-					ok = false
-				}
+				ok = ok && len(ends) > 0
 			}
 		}
 		x.Check(c.fam+":prefix-map-and-flag", f.Pos(), ok, "", "the "+c.fam+" arm does not both originate the prefix ("+c.m+") and mark the neighbour as having "+c.fam+" advertisements (the allow-list would get a `deny any` next to permits, or no network statement)")
